@@ -9,7 +9,7 @@ src = wt / "_seed" / var
 env = dict(os.environ, PYTHONPATH=str(wt))
 def sh(cmd, **kw):
     return subprocess.run(cmd, shell=True, capture_output=True, text=True, **kw)
-sh(f"git -C {wt} checkout -- fakesnow")
+sh(f"git -C {wt} reset -q --hard")
 head = sh("git -C /repo rev-parse HEAD").stdout.strip()
 sh(f"git -C {wt} checkout -q --detach {head}")
 r = sh(f"git -C {wt} apply {src}/patch.diff")
@@ -29,7 +29,7 @@ try:
     detected = c.returncode == 1 and any(l.startswith("VIOLATION") for l in lines)
     wall = round(time.time() - t0)
 finally:
-    sh(f"git -C {wt} checkout -- fakesnow")
+    sh(f"git -C {wt} reset -q --hard {head}")      # (a patch that applied only by 3-way merge is staged: checkout alone would keep it)
 d0 = sh(f"cd {src} && /venv/bin/python demo.py", env=env, timeout=600)
 confirmed = tests_ok and d1.returncode != 0 and d0.returncode == 0
 out = Path("/verif/seeded") / f"{pid}-{var}"
